@@ -549,6 +549,17 @@ pub fn check_program(p: &Program) -> Report {
             }
         }
     }
+    // a definition with the scoped name of some file's module (the names share one table)
+    {
+        let modules: BTreeSet<String> = p.files.iter().filter_map(|f| f.module.as_ref().map(|m| m.scope())).collect();
+        for (scope, names) in &def_names {
+            for (n, at) in names {
+                if modules.contains(&join(scope, n)) {
+                    ck.v("R-NAME-MODULE-DEFINITION", "E010", at);
+                }
+            }
+        }
+    }
     for (_scope, names) in def_names {
         ck.unique_names(&names, "R-NAME-DEFINITION");
     }
